@@ -3,6 +3,9 @@ package srvworld
 import (
 	"encoding/binary"
 	"net"
+	"os"
+	"syscall"
+	"time"
 
 	"github.com/pion/turn/v5/internal/zzverif/ref"
 )
@@ -77,6 +80,11 @@ func (x *TExec) hostileStream(c *tClient, st *TStep) ([]byte, string) {
 
 func (x *TExec) opHostileStream(st *TStep) {
 	c := x.client(st.C)
+	if st.Side == "accept-fault" {
+		x.opAcceptFault(c)
+
+		return
+	}
 	data, class := x.hostileStream(c, st)
 	x.St.inc("hostile:" + class)
 	conn := c.ctrl
@@ -123,6 +131,36 @@ func (x *TExec) opHostileStream(st *TStep) {
 	msgs, _, _ := drainFrames(nc, &rb)
 	if len(msgs) != 1 || msgs[0].TxID != m.TxID || msgs[0].Class != ref.ClassSuccess {
 		x.fail([]string{"C09"}, "server-dead-after-hostile-stream", "after a %s stream (%d bytes in %d segments) a Binding request on a new control connection got %d answers", class, len(data), cuts, len(msgs))
+	}
+	_ = nc.Close()
+	x.settle()
+}
+
+// opAcceptFault: the listener's Accept fails once with a temporary error - EMFILE, what a kernel
+// reports while a crowd of idle connections holds every descriptor. When that is over the listener
+// must accept and serve a new party again (the step's liveness probe looks after the old ones).
+func (x *TExec) opAcceptFault(c *tClient) {
+	x.w.lis.InjectAcceptError(&net.OpError{Op: "accept", Net: "tcp", Addr: x.w.lis.Addr(), Err: os.NewSyscallError("accept", syscall.EMFILE)})
+	x.St.inc("hostile:accept-fails-temporarily")
+	x.settle()
+	time.Sleep(3 * time.Second)
+	x.settle()
+	x.w.dport++
+	nc, err := x.w.net.DialTCPFrom(&net.TCPAddr{IP: net.IPv4(10, 7, 0, 3), Port: x.w.dport}, &net.TCPAddr{IP: ServerIP4, Port: ServerPort})
+	if err != nil {
+		x.fail([]string{"C09"}, "listener-refuses-connections", "after one temporary Accept error the listener accepts no new connection: %v", err)
+
+		return
+	}
+	m := &ref.Msg{Method: ref.MethodBinding, Class: ref.ClassRequest, TxID: c.nextTx()}
+	_, _ = nc.Write(m.Encode())
+	x.settle()
+	time.Sleep(time.Second)
+	x.settle()
+	var rb []byte
+	msgs, _, _ := drainFrames(nc, &rb)
+	if len(msgs) != 1 || msgs[0].TxID != m.TxID || msgs[0].Class != ref.ClassSuccess {
+		x.fail([]string{"C09"}, "listener-dead-after-accept-error", "3 s after one temporary Accept error (EMFILE) a Binding request on a new control connection got %d answers", len(msgs))
 	}
 	_ = nc.Close()
 	x.settle()
